@@ -29,7 +29,7 @@ WORK = os.path.join(ROOT, "work")
 EVID = os.path.join(ROOT, "evidence")
 REPLAYS = os.path.join(ROOT, "replays")
 KNOWN = os.path.join(ROOT, "known_findings.json")
-NCPU = min(16, os.cpu_count() or 4)
+NCPU = int(os.environ.get("VERIF_NCPU", min(16, os.cpu_count() or 4)))
 
 
 class ToolError(Exception):
